@@ -62,6 +62,7 @@ Clamp(x) == IF x > 1073741824 THEN 1073741824 ELSE IF x < -1073741824 THEN -1073
 Init0 == [ run |-> -1, profile |-> "none", sent |-> Fn(0), got |-> Fn(0), st |-> Fn("Closed"),
            closeSent |-> Fn(-1),      \* sent[p] when p's close() was accepted, -1 = not closed
            edge |-> Fn(-1),           \* greatest ack+wnd-1 advertised to p (stream offset bound)
+           hi |-> Fn(0),              \* highest sequence position p has put on the wire (new data lies above it)
            unread |-> Fn(0),          \* bytes buffered for p's reader when p's TCB was released
            fresh |-> Fn(0),           \* bytes that arrived in the call that left the readable states
            intext |-> Fn(0), rnxt |-> Fn(0), nxt |-> Fn(0), una |-> Fn(0), heapN |-> Fn(0),
@@ -178,10 +179,15 @@ DoPump(t, e) ==
       \* C03: without forged or old segments nobody resets
       t2 == Check(t1, e, ~(NoInj(t) /\ t.profile # "oldsyn" /\ rst), "C03", "an endpoint emitted RST although no segment was forged")
       \* C17: never new data beyond the right edge of the window the peer advertised
-      t3 == Check(t2, e, e.maxend <= t.edge[p] \/ e.maxend < 0, "C17", "data emitted beyond the right edge of the advertised window")
+      t3a == Check(t2, e, e.maxend <= t.edge[p] \/ e.maxend < 0, "C17", "data emitted beyond the right edge of the advertised window")
+      \* ... and NEW data stays inside SND.UNA + SND.WND of the endpoint itself (retransmissions of data sent before the
+      \* window shrank are legitimate); while the SYN is unacknowledged the code counts text only (one position of slack)
+      newdata == e.maxend > t.hi[p] /\ HasTcb(e, p) /\ t.incarn[p] <= 1
+      t3 == Check(t3a, e, ~newdata \/ e.maxend <= SnapOf(e, p).una + SnapOf(e, p).wnd - 1 + (IF SnapOf(e, p).una = 0 THEN 1 ELSE 0), "C17",
+                  "new data emitted beyond SND.UNA + SND.WND (the right edge of the window the peer last advertised)")
       \* C01: what is put on the wire is the submitted stream
       t4 == Check(t3, e, t.incarn[p] > 1 \/ (e.intact /\ e.maxend <= t.sent[p]), "C01", "an emitted segment does not carry the submitted bytes at its sequence position")
-  IN Book(Frame(t4, e, p), e)
+  IN Book(Frame([t4 EXCEPT !.hi[p] = IF e.maxend > @ THEN e.maxend ELSE @], e, p), e)
 
 \* a segment (genuine or forged) arrives at endpoint p
 DoArrive(t, e, forged) ==
@@ -204,8 +210,17 @@ DoArrive(t, e, forged) ==
                   IF relaxed
                   THEN "[K4] a segment ending at RCV.NXT-1 (outside the receive window, admitted by the relaxed validation) changed the connection state"
                   ELSE "a segment a conforming receiver must reject changed the connection state or the deliverable data")
+      \* C17: the window the peer last advertised.  An in-sequence segment (SEG.SEQ = RCV.NXT, nothing queued before it)
+      \* with an acceptable acknowledgment (SND.UNA =< SEG.ACK =< SND.NXT) always satisfies the update rule of RFC 9293
+      \* 3.10.7.4 (SND.WL1 =< SEG.SEQ and SND.WL2 =< SEG.ACK), so SND.WND must be the window it carries afterwards.
+      d0 == IF forged THEN sg.dseq ELSE sg.seq - t.rnxt[p]
+      winupd == a \in {"Estab", "CloseWait"} /\ b \in {"Estab", "CloseWait", "FinWait1", "LastAck"} /\ t.heapN[p] = 0 /\ d0 = 0
+                /\ Has(sg.ctl, ACK) /\ ~Has(sg.ctl, RST) /\ ~Has(sg.ctl, SYN)
+                /\ t.una[p] <= Clamp(sg.ack) /\ Clamp(sg.ack) <= t.nxt[p]
+      t2w == Check(t2, e, ~winupd \/ SnapOf(e, p).wnd = sg.wnd, "C17",
+                   "an in-sequence segment with an acceptable acknowledgment did not set the send window to the window it advertises")
       neu == IF Has(sg.ctl, ACK) THEN Clamp(sg.ack) + sg.wnd - 1 ELSE IF Has(sg.ctl, SYN) THEN sg.wnd ELSE -1
-      t3 == [t2 EXCEPT !.edge[p] = IF neu > @ THEN neu ELSE @,
+      t3 == [t2w EXCEPT !.edge[p] = IF neu > @ THEN neu ELSE @,
                        !.tainted = @ \/ (forged /\ ~unacc),
                        !.fresh[p] = IF a \in Readable /\ b \notin Readable /\ b \notin NoTcb
                                        /\ Fld(e, p, "intext", 0) > t.intext[p]
